@@ -6,6 +6,7 @@
 //   special_types   global_conf.go IsSpecialCheck: the constants of errTypeList
 //   flag_loop       global_conf.go handleNotJSONCheckFlag: bounds of the `for i := A; i < B; i++` loops
 //   documented_types luahelper-vscode/package.nls.json: switch name -> the "[Warn Type:n]" of its description
+//   must_compile_user_text  global_conf.go: is regexp.MustCompile still called on anything but a string literal?
 package main
 
 import (
@@ -224,6 +225,33 @@ func init() {
 		if bad != "" || len(loops) != 2 {
 			return out, "", fmt.Errorf("handleNotJSONCheckFlag: %s (%d counting loops, expected 2)", bad, len(loops))
 		}
+		// regexp.MustCompile(<not a literal>) anywhere in global_conf.go; regexp.Compile / MustCompile must occur at all
+		mustUser, compileCalls := 0, 0
+		ast.Inspect(fg, func(n ast.Node) bool {
+			ce, ok := n.(*ast.CallExpr)
+			if !ok {
+				return true
+			}
+			se, ok := ce.Fun.(*ast.SelectorExpr)
+			if !ok {
+				return true
+			}
+			if id, ok := se.X.(*ast.Ident); !ok || id.Name != "regexp" {
+				return true
+			}
+			if se.Sel.Name == "MustCompile" || se.Sel.Name == "Compile" {
+				compileCalls++
+			}
+			if se.Sel.Name == "MustCompile" && len(ce.Args) == 1 {
+				if lit, ok := ce.Args[0].(*ast.BasicLit); !ok || lit.Kind != token.STRING {
+					mustUser++
+				}
+			}
+			return true
+		})
+		if compileCalls == 0 {
+			return out, "", fmt.Errorf("global_conf.go: no regexp.Compile / regexp.MustCompile call at all: shape not recognised")
+		}
 		// documentation of the switches
 		nls, err := ioutil.ReadFile(filepath.Join(repo, "luahelper-vscode/package.nls.json"))
 		if err != nil {
@@ -275,6 +303,7 @@ func init() {
 		fmt.Fprintf(&b, "Definition warn_json_tags : list (string * string) :=\n  %s.\n\n", pairs(warnTags))
 		fmt.Fprintf(&b, "Definition special_types : list string :=\n  %s.\n\n", c17CoqStrings(special))
 		fmt.Fprintf(&b, "Definition flag_loops : list (string * string) :=\n  %s.\n\n", pairs(loops))
+		fmt.Fprintf(&b, "(* %d call(s) of regexp.MustCompile on non-literal text in global_conf.go *)\nDefinition must_compile_user_text : bool := %v.\n\n", mustUser, mustUser > 0)
 		dq := make([]string, len(docs))
 		for i, d := range docs {
 			dq[i] = fmt.Sprintf("(\"%s\", %s%%N)", d.name, d.ty)
